@@ -119,7 +119,7 @@ JUDGES = {"parse": judge_parse, "signtext": judge_signtext, "pipeline": judge_pi
 def shards(tier, seed):
     T = tier == "thorough"
     return ([{"name": "printed-%d" % i, "count": 8000 if T else 800} for i in range(4)]
-            + [{"name": "malformed", "count": 30000 if T else 3000, "exhaustive": "every text length 0..140; v bytes 0..255"}]
+            + [{"name": "malformed", "count": 150000 if T else 3000, "exhaustive": "every text length 0..140; v bytes 0..255"}]
             + [{"name": "pipeline-%d" % i, "count": 400 if T else 25} for i in range(8)])
 
 
